@@ -362,6 +362,10 @@ func main() {
 				rr := runReplay(tmp, knownPath, iso, false)
 				lb, _ := os.ReadFile(iso)
 				label := strings.TrimSpace(string(lb))
+				if strings.Contains(rr.output, "HARNESS PANIC") || strings.Contains(results[w].out, "HARNESS PANIC") {
+					trouble = fmt.Sprintf("worker %d: the harness itself panicked: %s", w, tail(results[w].out+rr.output, 1200))
+					continue
+				}
 				if rr.exit != 0 && isLibraryLabel(label) {
 					key := prop + "|crash|" + label + "|process-died"
 					if !seenKey[key] {
